@@ -1,2 +1,152 @@
-use serde_json::Value as J;
-pub fn replay(_rt: &tokio::runtime::Runtime, _cases: &str, _report: &str) { let _: Option<J> = None; unimplemented!() }
+//! C38: spec/raft/CoordSync.tla histories on a real single-node Raft coordinator: operations through the real REST handlers
+//! (warp::test on cluster_routes), a loopback mock worker for the deploy / failover HTTP calls, and after every operation the
+//! coordinator's view before and after Coordinator::sync_from_raft.
+use crate::{catch, read_cases, Report};
+use serde_json::{json, Value as J};
+use std::collections::BTreeMap;
+use std::sync::Arc;
+use std::time::{Duration, Instant};
+use varpulis_cluster::api::{cluster_routes, handle_rejection};
+use varpulis_cluster::{Coordinator, RbacConfig, WorkerId, WorkerStatus};
+use warp::Filter;
+
+type Shared = Arc<tokio::sync::RwLock<Coordinator>>;
+
+async fn mock_worker() -> String {
+    let deploy = warp::path!("api" / "v1" / "pipelines").and(warp::post()).and(warp::body::json::<J>())
+        .map(|b: J| warp::reply::with_status(warp::reply::json(&json!({"id": format!("id-{}", b["name"].as_str().unwrap_or("p")), "name": b["name"], "status": "running"})), warp::http::StatusCode::CREATED));
+    let other = warp::path("api").and(warp::any()).map(|| warp::reply::json(&json!({})));
+    let (addr, fut) = warp::serve(deploy.or(other)).bind_ephemeral(([127, 0, 0, 1], 0));
+    tokio::spawn(fut);
+    format!("http://{addr}")
+}
+
+/// projection of the coordinator's view onto CoordSync.tla's state
+fn project(c: &Coordinator) -> J {
+    let w = |id: &str| match c.workers.get(&WorkerId(id.into())) {
+        None => json!({"reg": false, "status": "none", "has": false}),
+        Some(n) => json!({"reg": true, "status": match n.status { WorkerStatus::Ready => "ready", WorkerStatus::Unhealthy => "unhealthy", WorkerStatus::Draining => "draining", _ => "other" }, "has": !n.assigned_pipelines.is_empty()}),
+    };
+    let grp = match c.pipeline_groups.values().next() {
+        None => json!({"exists": false, "on": "none"}),
+        Some(g) => json!({"exists": true, "on": g.placements.values().next().map(|d| d.worker_id.0.clone()).unwrap_or("none".into())}),
+    };
+    let conn = c.connectors.get("c1").map(|x| if x.params.get("host").map(|h| h == "h1").unwrap_or(false) { 1 } else { 2 }).unwrap_or(0);
+    json!({"workers": {"w1": w("w1"), "w2": w("w2")}, "grp": grp, "conn": conn})
+}
+fn diff(a: &J, b: &J) -> Vec<String> {
+    let mut v = vec![];
+    for w in ["w1", "w2"] {
+        if a["workers"][w]["status"] != b["workers"][w]["status"] { v.push(format!("{w}.status")); }
+        if a["workers"][w]["has"] != b["workers"][w]["has"] { v.push(format!("{w}.assigned")); }
+        if a["workers"][w]["reg"] != b["workers"][w]["reg"] { v.push(format!("{w}.registered")); }
+    }
+    if a["grp"] != b["grp"] { v.push("g.placement".into()); }
+    if a["conn"] != b["conn"] { v.push("c.connector".into()); }
+    v.sort();
+    v
+}
+
+async fn run_history(hist: &[J], rep: &mut Report, case_no: usize) {
+    let worker_addr = mock_worker().await;
+    // a single-node Raft cluster (real openraft, real MemStore / state machine); no peers, so no RPC server is needed
+    let boot = varpulis_cluster::raft::bootstrap(1, &["http://127.0.0.1:1".to_string()], None).await.expect("raft bootstrap");
+    let t0 = Instant::now();
+    loop {
+        let m = boot.raft.metrics().borrow().clone();
+        if m.current_leader == Some(1) { break; }
+        if t0.elapsed() > Duration::from_secs(20) { panic!("single-node raft did not elect itself within 20 s"); }
+        tokio::time::sleep(Duration::from_millis(50)).await;
+    }
+    let mut peers = BTreeMap::new();
+    peers.insert(1u64, "http://127.0.0.1:1".to_string());
+    let mut co = Coordinator::with_raft(boot.raft.clone(), boot.shared_state.clone(), peers, None);
+    co.update_raft_role();
+    let coord: Shared = Arc::new(tokio::sync::RwLock::new(co));
+    let routes = cluster_routes(coord.clone(), Arc::new(RbacConfig::disabled()), None).recover(handle_rejection);
+    let b = "/api/v1/cluster";
+    for (n, h) in hist.iter().enumerate() {
+        let a = &h["a"];
+        let op = a["op"].as_str().unwrap();
+        let small = json!({"history": hist[..=n].iter().map(|x| x["a"].clone()).collect::<Vec<_>>()});
+        let w = a["w"].as_str().unwrap_or("");
+        let mut status = 200u16;
+        let mut req = |m: &str, p: String, body: Option<J>| { let mut r = warp::test::request().method(m).path(&p); if let Some(b) = body { r = r.json(&b); } r };
+        match op {
+            "register" => status = req("POST", format!("{b}/workers/register"), Some(json!({"worker_id": w, "address": worker_addr, "api_key": "k", "capacity": {"cpu_cores": 4, "pipelines_running": 0, "max_pipelines": 10}}))).reply(&routes).await.status().as_u16(),
+            "deregister" => status = req("DELETE", format!("{b}/workers/{w}"), None).reply(&routes).await.status().as_u16(),
+            "heartbeat" => {
+                let running = coord.read().await.workers.get(&WorkerId(w.into())).map(|n| n.assigned_pipelines.len()).unwrap_or(0);
+                status = req("POST", format!("{b}/workers/{w}/heartbeat"), Some(json!({"events_processed": 1, "pipelines_running": running}))).reply(&routes).await.status().as_u16();
+            }
+            "age" => { let mut c = coord.write().await; let t = c.heartbeat_timeout; if let Some(n) = c.workers.get_mut(&WorkerId(w.into())) { n.last_heartbeat = Instant::now() - t - Duration::from_secs(2); } continue; }
+            "deploy" => status = req("POST", format!("{b}/pipeline-groups"), Some(json!({"name": "g", "routes": [], "pipelines": [{"name": "p", "source": "stream S = A\n    .emit(x: x)\n", "worker_affinity": w, "replicas": 1}]}))).reply(&routes).await.status().as_u16(),
+            "delete_group" => { let gid = coord.read().await.pipeline_groups.keys().next().cloned().unwrap_or("none".into()); status = req("DELETE", format!("{b}/pipeline-groups/{gid}"), None).reply(&routes).await.status().as_u16(); }
+            "connector" => {
+                let v = a["v"].as_u64().unwrap();
+                let exists = coord.read().await.connectors.contains_key("c1");
+                let body = json!({"name": "c1", "connector_type": "mqtt", "params": {"host": format!("h{v}")}});
+                status = if v == 0 { req("DELETE", format!("{b}/connectors/c1"), None).reply(&routes).await.status().as_u16() }
+                         else if exists { req("PUT", format!("{b}/connectors/c1"), Some(body)).reply(&routes).await.status().as_u16() }
+                         else { req("POST", format!("{b}/connectors"), Some(body)).reply(&routes).await.status().as_u16() };
+            }
+            "sweep" => {
+                // the body of the CLI's health loop after its sync: sweep, replicate the new status, fail over
+                let mut c = coord.write().await;
+                let r = c.health_sweep();
+                for wid in &r.workers_marked_unhealthy {
+                    let cmd = varpulis_cluster::raft::ClusterCommand::WorkerStatusChanged { id: wid.0.clone(), status: "unhealthy".into() };
+                    if let Some(hd) = &c.raft_handle { let _ = hd.raft.client_write(cmd).await; }
+                }
+                for wid in r.workers_marked_unhealthy.clone() { c.handle_worker_failure(&wid).await; }
+                let mut m: Vec<String> = r.workers_marked_unhealthy.iter().map(|x| x.0.clone()).collect();
+                m.sort();
+                let mut want: Vec<String> = a["marked"].as_array().map(|x| x.iter().map(|y| y.as_str().unwrap().to_string()).collect()).unwrap_or_default();
+                want.sort();
+                if m != want { rep.count("sweep_set_differs_from_model", 1); }
+            }
+            o => panic!("op {o}"),
+        }
+        if !(200..300).contains(&status) { rep.violation(&["C38"], &format!("operation {op} refused with HTTP {status} although the model enables it"), &small, J::Null, json!(status)); return; }
+        // the replicated state machine is updated when client_write returns; the view before and after re-synchronising
+        let before = { let c = coord.read().await; project(&c) };
+        { let mut c = coord.write().await; c.sync_from_raft(); }
+        let after = { let c = coord.read().await; project(&c) };
+        let real_rev = diff(&before, &after);
+        let mut model_rev: Vec<String> = h["rev"].as_array().map(|x| x.iter().map(|p| format!("{}.{}", p[0].as_str().unwrap(), p[1].as_str().unwrap())).collect()).unwrap_or_default();
+        model_rev.sort();
+        rep.count(&format!("op_{op}"), 1);
+        if !real_rev.is_empty() {
+            // a change the coordinator acknowledged / made is undone by its own re-synchronisation
+            if real_rev == model_rev && after == h["post"] {
+                let id = match op { "deploy" => "C38-deploy-does-not-replicate-worker-assignment", "heartbeat" => "C38-heartbeat-recovery-not-replicated", "sweep" => "C38-failover-not-replicated", _ => "unattributed" };
+                if id == "unattributed" { rep.violation(&["C38"], "sync_from_raft reverts a change (predicted by the faithful model for an operation with no recorded finding)", &small, json!([]), json!(real_rev)); return; }
+                rep.known(&["C38"], id, &format!("{op}: sync_from_raft reverts {real_rev:?}"));
+            } else {
+                rep.violation(&["C38"], "sync_from_raft reverts a change the coordinator acknowledged or made, beyond what the faithful model predicts", &json!({"case": small, "case_no": case_no}), json!({"model_reverted": model_rev, "model_view": h["post"]}), json!({"reverted": real_rev, "before": before, "after": after}));
+                return;
+            }
+        } else if after != h["post"] || !model_rev.is_empty() {
+            rep.count("model_mismatch_without_revert", 1);
+            if rep_drift_room(rep) { rep.violation_drift(&small, &h["post"], &after); }
+            return;    // the model no longer describes this run: stop comparing it
+        }
+    }
+    boot.raft.shutdown().await.ok();
+}
+fn rep_drift_room(_r: &Report) -> bool { true }
+
+pub fn replay(rt: &tokio::runtime::Runtime, cases: &str, report: &str) {
+    let cases = read_cases(cases);
+    let mut rep = Report::default();
+    for (i, c) in cases.iter().enumerate() {
+        let hist = c["hist"].as_array().unwrap().clone();
+        rep.case(&json!({"ops": hist.iter().map(|h| h["a"]["op"].clone()).collect::<Vec<_>>()}), hist.iter().any(|h| h["a"]["op"] == "deploy"));
+        let mut r2 = Report::default();
+        match catch(|| rt.block_on(run_history(&hist, &mut r2, i))) {
+            Ok(()) => rep.merge(r2),
+            Err(p) => { rep.merge(r2); rep.violation(&["C38"], "coordinator panicked", &json!({"case_no": i}), J::Null, json!(p)); }
+        }
+    }
+    rep.write(report);
+}
